@@ -83,7 +83,17 @@ JudgeSched(e) ==
 
 \* fault modes: "short" / "next" fail for good at offset k; "once" fails exactly one write and then recovers -- still an error
 JudgeWFault(e) ==
-  LET badf == SelectSeq(e.faults, LAMBDA f : ~(f.pan = "" /\ (f.k < e.total => f.err) /\ (~f.err => f.size = f.got))) IN
+  \* f.retry: the same SMF value written once more, to a healthy destination, right after the failed write: if that
+  \* returns nil the size is the number of bytes written and the bytes are those of the unfaulted write ("err": not judged)
+  LET badf == SelectSeq(e.faults, LAMBDA f : ~(f.pan = "" /\ (f.k < e.total => f.err) /\ (~f.err => f.size = f.got)
+                                               /\ f.retry \in {"ok", "err"}))
+      \* judge "c03": only C03's size clause -- the reported size is the number of bytes emitted, whether or not the write fails
+      bads == SelectSeq(e.faults, LAMBDA f : ~(f.pan = "" /\ f.size = f.got)) IN
+  IF e.judge = "c03"
+  THEN [ok |-> bads = <<>> /\ e.oksize = e.total,
+        info |-> [id |-> e.id, ev |-> "wfault", total |-> e.total, okerr |-> e.okerr, oksize |-> e.oksize, nbad |-> Len(bads), devfull |-> e.devfull,
+                  first |-> IF bads = <<>> THEN <<>> ELSE <<bads[1]>>]]
+  ELSE
   [ok |-> ~e.okerr /\ e.oksize = e.total /\ badf = <<>> /\ e.devfull \in {"err", "n/a"},
    info |-> [id |-> e.id, ev |-> "wfault", total |-> e.total, okerr |-> e.okerr, oksize |-> e.oksize, nbad |-> Len(badf), devfull |-> e.devfull,
              first |-> IF badf = <<>> THEN <<>> ELSE <<badf[1]>>]]
